@@ -173,9 +173,11 @@ def cases(rng, tier):
         kind = "dna" if i % 4 else "protein"
         alpha = gen.DNA if kind == "dna" else "DEFHIKLMPQRSVWY" + "ACGT"
         L = rng.choice([64, 100, 150, 200]) if tier == "quick" or i % 8 else rng.choice([512, 600])
-        j = 1 + i % 4
+        if i % 12 == 5:
+            L = rng.choice([1040, 1100])        # two nested levels of the parallel controller: its children start inside the gap run
+        j = 1 + i % 4 if L < 1000 else 1
         row = L >> j if (i // 4) % 2 == 0 else L - (L >> j)
-        k = rng.choice([2, 3, 5])
+        k = rng.choice([2, 3, 5]) if L < 1000 else 6
         start = max(6, row - rng.randint(1, k - 1))
         far = (start + L // 2) % L
         far = min(max(far, 8), L - 12)
@@ -187,6 +189,8 @@ def cases(rng, tier):
         if L >= 500 and ty in (2, 5) and kind == "dna":
             ty = 1
         pens = (-1, -1, -1)
+        if L >= 1000:
+            kind, ty = "dna", rng.choice([0, 1])
         if i % 5 == 4:
             pens = (30, 2, 9) if kind == "protein" else ((20, 1, 8) if ty in (0, 1) else (217, 39.4, 0))
         ka, kb = (1, 1) if i % 3 else (rng.randint(1, 3), rng.randint(1, 3))
